@@ -36,12 +36,14 @@ def _first_basic(e):
 
 
 def make_query(r, shard, filters=True, names=None, strings=None, registry=None, min_segs=1, max_segs=4,
-               blank_p=0.15, max_filter_depth=2, big_ints=False, tries=20, doc=None, hit_p=0.8):
+               blank_p=0.15, max_filter_depth=2, big_ints=False, tries=20, doc=None, hit_p=0.8, root_p=0.015):
     """Generate (ast, text, used) with triangulation; counts exclusions on shard.
 
     With doc given, names/strings/numbers of the document feed the generator and the
     segments are guided so that most selectors hit.
     """
+    if r.random() < root_p:
+        return ["q", "$", []], "$", set()     # the query with no segments at all: its only node is the root
     numbers = None
     big_doc = doc is not None and V.count_nodes(doc) > 120
     if doc is not None:
